@@ -119,13 +119,13 @@ class Contract:
         self.modifies_types.update(typed)
         return self
 
-    def loops(self, while_rule=False, **carried):
+    def loops(c_self, while_rule=False, **carried):
         """Invariant of the loops over collections of symbolic size in this function: the shape of every loop-carried variable."""
         spec = dict(carried)
         if while_rule:
             spec["__while__"] = True
-        LOOP_SPECS[self.key] = spec
-        return self
+        LOOP_SPECS[c_self.key] = spec
+        return c_self
 
     def check(self, label, fn):
         self.checks.append((label, fn))
